@@ -32,6 +32,8 @@ func init() {
 			"p4": {Tag: "kvhandle", Start: "file-b", Threads: [][]conc.Op{{{Name: "append", P: "b", Data: d1}}, {{Name: "rename", P: "b", Q: "a"}}}},
 			"p5": {Tag: "kvhandle", Start: "file-b", Threads: [][]conc.Op{{{Name: "append", P: "b", Data: d1}, {Name: "append", P: "b", Data: d2}}, {{Name: "remove", P: "b"}}}},
 			"p6": {Tag: "kvhandle", Start: "file-b", Threads: [][]conc.Op{{{Name: "writefile", P: "b", Data: d1}}, {{Name: "writefile", P: "b", Data: d2}}}},
+			"p8": {Tag: "kvhandle", Start: "file-b", Threads: [][]conc.Op{{{Name: "append", P: "b", Data: d1}}, {{Name: "readfile", P: "b"}, {Name: "readfile", P: "b"}}}},
+			"p9": {Tag: "kvhandle", Start: "file-b", Threads: [][]conc.Op{{{Name: "writefile", P: "b", Data: d2}}, {{Name: "readfile", P: "b"}, {Name: "remove", P: "b"}}}},
 			"p7": {Tag: "kvhandle", Start: "file-b", Threads: [][]conc.Op{{{Name: "writefile", P: "b", Data: d1}}, {{Name: "rename", P: "b", Q: "a"}, {Name: "append", P: "a", Data: d2}}}},
 		}
 	}
@@ -118,8 +120,16 @@ func init() {
 									k++
 								}
 							}
-							if exp == nil || k >= len(exp.E) || exp.E[k].S != r.Kind {
-								bad = append(bad, fmt.Sprintf("result of %s: real %s, model differs", r.Op.String(), r.Kind))
+							switch {
+							case exp == nil || k >= len(exp.E):
+								bad = append(bad, fmt.Sprintf("result of %s: real %s, model has none", r.Op.String(), r.Kind))
+							case exp.E[k].K == tla.Str && exp.E[k].S != r.Kind:
+								bad = append(bad, fmt.Sprintf("result of %s: real %s, model %s", r.Op.String(), r.Kind, exp.E[k].S))
+							case exp.E[k].K != tla.Str: // returned data
+								got, perr := tla.Parse(r.Out)
+								if r.Kind != "ok" || perr != nil || fmt.Sprint(got.Bytes()) != fmt.Sprint(exp.E[k].Bytes()) {
+									bad = append(bad, fmt.Sprintf("result of %s: real %s %s, model %v", r.Op.String(), r.Kind, r.Out, exp.E[k].Bytes()))
+								}
 							}
 						}
 						ft, ferr := tla.Parse(o.Final)
